@@ -97,7 +97,13 @@ def body(ctx):
         nk = rng.randint(0, 5)
         comment = {}
         for _ in range(nk):
-            comment[gen_key(rng, wild)] = gen_val(rng, wild)
+            k, v = gen_key(rng, wild), gen_val(rng, wild)
+            if rng.random() < 0.2:
+                # the value quotes its own key followed by the separator (e.g. "id": "grid : 5 km")
+                v = (gen_val(rng) + " " + rng.choice([k, k[-2:], k + " "]) + rng.choice([" : ", ": ", " :"]) + gen_val(rng)).strip()
+                if "-" * 10 in v and not wild:
+                    v = gen_val(rng)
+            comment[k] = v
         if wild:
             normal = {}
             for k in comment:
